@@ -747,6 +747,27 @@ class FnAsm:
             if not re.match(r'^\s*pub\b', before):
                 before = 'pub ' + before
         # R11-like declared substitutions on the signature are done on whole text below
+        # R11: `x: impl AsRef<T>` + `let x = x.as_ref();`  ->  `x: &T` (the crate's AsRef impls are the identity / a field
+        # projection; assemble() checks every `fn as_ref` body of the crate to be exactly that)
+        self.r11 = []
+        for m_ in list(re.finditer(r'(\b[A-Za-z_]\w*)\s*:\s*impl\s+AsRef\s*<', before)):
+            nm = m_.group(1)
+            lt = before.index('<', m_.end() - 1)
+            d_ = 0
+            k_ = lt
+            while k_ < len(before):
+                if before[k_] == '<':
+                    d_ += 1
+                elif before[k_] == '>' and before[k_ - 1] not in '-=':
+                    d_ -= 1
+                    if d_ == 0:
+                        break
+                k_ += 1
+            ty_ = before[lt + 1:k_].strip()
+            self.r11.append((nm, before[m_.start():k_ + 1], '%s: &%s' % (nm, ty_)))
+        for nm, old_, new_ in self.r11:
+            before = before.replace(old_, new_)
+            self.log.append('R11: %s -> %s' % (norm_ws(old_), norm_ws(new_)))
         head = before
         if ret is not None:
             rn = (sp.ret if sp and sp.ret else '__ret')
@@ -799,6 +820,10 @@ class FnAsm:
         except (rules.RuleError, rsparse.ScanError) as e:
             raise Undecided('%s: %s' % (self.qual, e))
         self.log += log
+        for nm, old_, new_ in getattr(self, 'r11', []):
+            body, c1 = re.subn(r'let\s+%s\s*=\s*%s\.as_ref\(\)\s*;' % (re.escape(nm), re.escape(nm)), '', body)
+            body, c2 = re.subn(r'\b%s\.as_ref\(\)' % re.escape(nm), nm, body)
+            self.log.append('R11: dropped %d `let %s = %s.as_ref();`, replaced %d inline `%s.as_ref()`' % (c1, nm, nm, c2, nm))
         if sp:
             for rx, rep, reason in sp.subst:
                 body2, cnt = re.subn(rx, rep, body)
@@ -1129,6 +1154,23 @@ pub fn verif_nondet_bool() -> bool
 '''
 
 
+def check_as_ref_impls(items):
+    """R11 side condition: every `fn as_ref` of the crate is `self` or `&self.norm_hash`."""
+    def walk(its):
+        for it in its:
+            if it.kind == 'impl' and it.children:
+                g, tr, ty, wh = impl_header_info(it.header)
+                if tr and tr.startswith('AsRef<'):
+                    for c in it.children:
+                        if c.kind == 'fn' and c.name == 'as_ref':
+                            b = norm_ws(c.src[c.body_open:c.body_close + 1])
+                            if b not in ('{ self }', '{ &self.norm_hash }'):
+                                raise Undecided('R11 side condition: AsRef impl for %s is not the identity/field projection: %s' % (ty, b))
+            if it.kind == 'mod' and it.children:
+                walk(it.children)
+    walk(items)
+
+
 def assemble(unit, src):
     items = parse_items(src, 0, len(src))
     plan = collect_unit(items, unit)
@@ -1147,6 +1189,7 @@ def assemble(unit, src):
         for blk, _ in unit.mods[mp].injects:
             for m in re.finditer(r'\bpub\s+(?:open\s+|closed\s+|uninterp\s+)?(?:spec|proof|exec)?\s*(?:fn|const|struct|enum|trait|type)\s+(\w+)', blk):
                 emitted_paths.add(mp + '::' + m.group(1))
+    check_as_ref_impls(items)
     out = Out()
     log = []
     out.emit('// GENERATED by tools/extract.py from the rustc-expanded working tree of /repo.\n'
